@@ -51,7 +51,9 @@ def main():
                 sigs = [l.strip() for l in out.split("\n") if l.strip().startswith("signature:")]
                 meta["checks"][c] = {"exit": rc, "signatures": sigs[:12], "wall_s": round(time.time() - t0, 1), "tail": out[-400:] if rc not in (0, 1) else ""}
         sh("git -C /repo worktree remove --force %s" % tree)
-        dst = os.path.join(VERIF, "seeded", "%s-%s" % (pid, k))
+        dst = os.path.join(VERIF, "seeded", "%s-%s" % (pid, int(k) + int(os.environ.get("SEED_BASE", "0"))))
+        if os.environ.get("SEED_ROUND"):
+            meta["round"] = int(os.environ["SEED_ROUND"])
         os.makedirs(dst, exist_ok=True)
         shutil.copy(patch, os.path.join(dst, "patch.diff"))
         if os.path.exists(demo):
